@@ -13,6 +13,11 @@ LEVEL_TEXT = {
  "C09": "Bounded model checking of counts, degrees (plain / in / out / weighted), handshake identities, density and degree centrality on the shape catalogue with symbolic integer weights, against oracles computed from the edge list.",
  "C10": "Bounded model checking with the graph TOPOLOGY symbolic: all 16 undirected and all 128 directed graphs on 3 nodes (incl. a self-loop) in one query each; component functions vs a Floyd-Warshall closure oracle; partition / WrongMethod clauses.",
  "C12": "Bounded model checking: is_partition against the set-theoretic definition for all 2^8 / 2^12 families of sets over the node names plus a foreign name; modularity's NotAPartition guard; modularity value vs Newman's formula on concrete partitions with symbolic integer weights and resolution.",
+ "C05": "Bounded model checking of the Brandes accumulation stage (every shortest-path DAG over 3 nodes, arbitrary previous vector), of the rescaling rules (every n, both flags) and of the hop-count single-source stage + the sequential composition bfs -> accumulate -> rescale on enumerated topologies against the definition; the weighted (BinaryHeap) stage is outside.",
+ "C06": "Bounded model checking of the closeness formula (every r <= n <= 4, symbolic distances, WF flag) and of the hop-count BFS distances + the sequential composition reverse -> BFS -> formula on enumerated topologies (incoming distances on directed graphs); the weighted stage is outside.",
+ "C11": "Bounded checking of triangles / clustering / generalized_degree / average_clustering / transitivity / square_clustering (undirected) and Fagiolo's coefficient (directed) on enumerated 3-node topologies and node subsets against brute-force oracles; WrongMethod guards; every Rust panic / overflow in the real code is an assertion.",
+ "C17": "Kernel-level bounded model checking of the tie-breaking site named by the property: update_best_com is given the same neighbour-community map in both iteration orders (the shim iterates in insertion order, which turns the hash-iteration order into a harness input) with 12 symbolic weights/degrees: same community, same gain.",
+ "C20": "Assertion-free totality harnesses: public queries and algorithms on 7 degenerate shapes x 8 graph kinds run in Kani's debug model, where every unwrap / index / overflow panic of the real code is a checked assertion; absent names are passed to Result/Option-returning functions.",
  "C15": "Bounded model checking of get_subgraph / reverse / set_all_edge_weights / to_single_edges on the shape catalogue with symbolic weights: result abstraction vs reference transform, full representation invariant of the result, source unchanged, WrongMethod guards.",
  "C16": "Bounded model checking of the two G(n,p) skipping loops with every RNG output, every p in (0,1) and ln (by contract) symbolic: emitted pairs in range, no self-loop, strictly increasing, EVERY pair / empty / complete graph reachable (cover properties), no arithmetic overflow; the argument guard for every f64 p outside (0,1); complete_graph for n <= 1 (n = 2,3 in the full tier).",
 }
